@@ -82,6 +82,14 @@ def build():
                   E('state', 'final(self).abs().core_eq(if old(self).abs().current(entity) { old(self).abs().kill_one(entity) } else { old(self).abs() })', 'C01 C02 C05'),
                   E('purged', 'final(self).purged(old(self), if old(self).abs().current(entity) { seq![entity.0] } else { Seq::<u32>::empty() })', 'C05')],
          hints=[('start', None, 'proof { let s = old(self).abs(); assert forall|d: Seq<Entity>, k: nat| d.len() == 1 && d[0] == entity && #[trigger] s.kill_stops_at(d, k) implies k <= 1 && (k == 1) == s.current(entity) && s.kill_fold(d, k) == (if k == 1 { s.kill_one(entity) } else { s }) && ids(d.subrange(0, k as int)) == (if k == 1 { seq![entity.0] } else { Seq::<u32>::empty() }) by { lemma_single_kill(s, d, k); } }')])
+    u.fn(W, ['impl WorldExt for World', 'fn delete_all'], props='C02 C01 C05', impl_header=IH, key='World::delete_all',
+         rules=[('N10', r'self\.entities\(\)\.join\(\)\.collect\(\)', 'collect_entities_join(self.entities())'), ('N1', r'let entities: Vec<_> =', 'let entities: Vec<Entity> =')],
+         requires=[E('wf', 'old(self).wf()'), E('headroom', 'old(self).ents().alloc.headroom()')],
+         ensures=[E('wf', 'final(self).wf()', 'C01 C02'),
+                  E('none_left', 'forall|i: u32| !(#[trigger] final(self).abs().occ(i))', 'C02'),
+                  E('purged', 'final(self).purged(old(self), sorted_seq(old(self).ents().alloc.alive@ + old(self).ents().alloc.raised@))', 'C05')],
+         hints=[('after', 'let entities', 'proof { lemma_delete_all(&old(self).ents().alloc, entities@); assert(entities@.subrange(0, entities@.len() as int) =~= entities@); assert(ids(entities@) =~= sorted_seq(old(self).ents().alloc.alive@ + old(self).ents().alloc.raised@)); }'),
+                ('before_tail', None, 'proof { assert forall|i: u32| !(#[trigger] self.abs().occ(i)) by { let f = old(self).abs().kill_fold(entities@, entities@.len()); assert(!f.occ(i)); assert(self.abs().alive.contains(i) == f.alive.contains(i)); assert(self.abs().raised.contains(i) == f.raised.contains(i)); } }')])
     u.fn(W, ['impl WorldExt for World', 'fn is_alive'], ret='r', props='C02', impl_header=IH, key='World::is_alive',
          requires=[E('wf', 'self.wf()'), E('posgen', 'e.1.0@ > 0')],
          ensures=[E('merged_view', 'r == (self.ents().alloc.alive@.contains(e.0) && self.ents().alloc.gid(e.0 as int) == e.1.0@)')])
